@@ -134,7 +134,19 @@ for l in open("/verif/properties.jsonl"):
         kind = f"For this task, aim your change at: {KINDS4[pid]}.\n"
     if rnd == 5:
         kind = f"For this task, aim your change at: {KINDS5[pid]}.\n"
-    if rnd >= 12:
+    if rnd >= 13:
+        kind = ("For this task, aim your change at FAILURE HANDLING and the boundary between 'answers' and 'refuses': the places where the code detects "
+                "that it cannot proceed (breakdowns, zero pivots, non-convergence, invalid or degenerate input, exceptions from a helper, fallbacks to another "
+                "method). Realistic slips: an exception that is now swallowed (try/except returning a default, a partial or a stale result instead of "
+                "raising); a fallback path that is taken silently and returns something of lower quality while the flags / diagnostics still say success; "
+                "a breakdown or convergence test moved so that the flag is computed before the last update (or from a different quantity than the one "
+                "returned); a loud failure turned into NaN / inf / zeros in the output; a validation that now runs AFTER the inputs have been touched; "
+                "an early return that skips a post-processing step which the property relies on (sorting, sign normalisation, trimming, symmetrisation, "
+                "recomputing the reported residual); a retry loop that returns the best-so-far although it reports the last. The change must make the "
+                "property false on an in-domain input (or, for the domain-guard property, make an out-of-domain input be answered / an in-domain input be "
+                "refused). Do not reuse mechanisms from earlier rounds (cleanup thresholds, extreme magnitudes, dtype handling, caches and object state, "
+                "memory layout, sparse storage forms, option fast paths, algorithm substitutions).\n")
+    elif rnd >= 12:
         kind = ("For this task, aim your change at an ALGORITHM SUBSTITUTION: replace a step (or the whole method) by a cheaper or simpler alternative that is "
                 "mathematically equivalent ONLY under an assumption which the property's domain does not guarantee, so that it is right on ordinary inputs "
                 "and wrong where the assumption fails. Typical assumptions: commutativity (quaternion scalars and matrices do NOT commute: q*A versus A*q, "
